@@ -1202,6 +1202,11 @@ def gen_c11(rng, fs, i, cfg):
             c["chunksize"] = 10
         if m == "cli":
             c["bed_header"] = rng.random() < 0.5
+        elif rng.random() < 0.08:
+            # one open of the file fails somewhere inside the run (a chunk read in the driver or in
+            # a worker): the run may fail, it must never return other weights
+            c["fail_open"] = rng.randint(1, 60)
+            c["repeat"] = False
         configs.append(c)
     if rng.random() < 0.3:
         configs.append({"map": "builtin", "chunksize": None, "repeat": True})
